@@ -1031,6 +1031,23 @@ lyd_insert_check_schema(const struct lysc_node *parent, const struct lysc_node *
     return LY_SUCCESS;
 }
 
+/**
+ * @brief Flag nodes being inserted among other siblings as new so that the next validation checks
+ * them for instance duplication, same as if they were just created.
+ *
+ * @param[in] node Node to flag.
+ * @param[in] siblings Whether to flag all the following siblings of @p node as well.
+ */
+static void
+lyd_insert_set_new(struct lyd_node *node, ly_bool siblings)
+{
+    for ( ; node; node = siblings ? node->next : NULL) {
+        if (node->schema) {
+            node->flags |= LYD_NEW;
+        }
+    }
+}
+
 LIBYANG_API_DEF LY_ERR
 lyd_insert_child(struct lyd_node *parent, struct lyd_node *node)
 {
@@ -1041,8 +1058,10 @@ lyd_insert_child(struct lyd_node *parent, struct lyd_node *node)
 
     if (node->parent || node->prev->next || !node->next) {
         LY_CHECK_RET(lyd_unlink_tree(node));
+        lyd_insert_set_new(node, 0);
         lyd_insert_node(parent, NULL, node, LYD_INSERT_NODE_DEFAULT);
     } else {
+        lyd_insert_set_new(node, 1);
         LY_CHECK_RET(lyd_move_nodes(parent, NULL, node));
     }
 
@@ -1085,8 +1104,10 @@ lyd_insert_sibling(struct lyd_node *sibling, struct lyd_node *node, struct lyd_n
     first_sibling = lyd_first_sibling(sibling);
     if (node->parent || node->prev->next || !node->next) {
         LY_CHECK_RET(lyd_unlink_tree(node));
+        lyd_insert_set_new(node, 0);
         lyd_insert_node(NULL, &first_sibling, node, LYD_INSERT_NODE_DEFAULT);
     } else {
+        lyd_insert_set_new(node, 1);
         LY_CHECK_RET(lyd_move_nodes(NULL, &first_sibling, node));
     }
 
@@ -1115,6 +1136,7 @@ lyd_insert_before(struct lyd_node *sibling, struct lyd_node *node)
     }
 
     lyd_unlink(node);
+    lyd_insert_set_new(node, 0);
     lyd_insert_before_node(sibling, node);
     lyd_insert_hash(node);
 
@@ -1139,6 +1161,7 @@ lyd_insert_after(struct lyd_node *sibling, struct lyd_node *node)
     }
 
     lyd_unlink(node);
+    lyd_insert_set_new(node, 0);
     lyd_insert_after_node(NULL, sibling, node);
     lyd_insert_hash(node);
 
